@@ -152,7 +152,8 @@ def judge(run, variant, res, stats, rerun):
         for k in ("request_handler", "response_handler", "nack_handler", "event_handler",
                   "ping_handler", "pong_handler", "release_handler", "reentry_calls",
                   "lock_acquisitions",
-                  "lock_handovers", "tracked_con", "notifications"):
+                  "lock_handovers", "tracked_con", "notifications", "failed_context_calls",
+                  "signals_to_io_threads"):
             stats[k] = stats.get(k, 0) + info.get(k, 0)
         stats["pairs"] |= set(info.get("pairs", []))
         if info.get("supported") == 0:
@@ -217,7 +218,8 @@ def main(tier):
     run.rule = ("thr.c: server + client context over loopback UDP and TCP, one thread per context in "
                 "coap_io_process(), 2..8 workers issuing send (CON/NON, own and shared sessions, TCP, "
                 "to a dead port), notify, observe register/cancel, session create+reference+release, "
-                "resource add+delete, async, ping, state queries; request/response/NACK/event/ping/"
+                "resource add+delete, async, ping, state queries, a second context that cannot bind; a "
+                "signal every 1.5 ms to the I/O threads (EINTR in epoll_wait/select); request/response/NACK/event/ping/"
                 "pong handlers re-enter the API (notify, cache, async, send, can_exit, io_pending). "
                 "Variants: repository CMake defaults (epoll) and select(), recursive-lock-check, "
                 "the autotools build (./configure --enable-thread-safe on a copy of the tree; "
@@ -281,4 +283,6 @@ def main(tier):
         for k in ("request_handler", "response_handler", "nack_handler", "event_handler",
                   "ping_handler", "pong_handler", "release_handler"):
             run.require(k, stats.get(k, 0), 5)
+        run.require("failed_context_calls", stats.get("failed_context_calls", 0), 5)
+        run.require("signals_to_io_threads", stats.get("signals_to_io_threads", 0), 500)
     return run.finish()
